@@ -19,11 +19,13 @@ SPEC = {
     'rule': 'lim: fixed 19x19x10 boundary grid {0..3,254..258,2^63-1..2^63+1,2^64-258..2^64-255,2^64-3..2^64-1}^2 x '
             '{0,1,2,3,255,256,257,2^63,2^64-2,2^64-1} plus a random stream (size n-1/n/n+1, near 2^64, inverted, full range); '
             'rng: 0..12 chains, each (off,on) pair drawn from equal / on=off-1 / size n-1,n,n+1 / much larger / inverted / 0 / '
-            'near 2^64 / full range / on missing / off missing, tree size in {1,2,3,16,256,257,2^63,2^64-1,0}; half through '
+            'near 2^64 / full range / on missing / off missing, tree size in {1,2,3,16,255,256,257,300,1000,2^63,2^64-1,0}; half through '
             'reportRangesOutcome with a constructed consensus observation, half through Processor.Outcome with 4 oracles (F=1) '
             'voting identically and every previous outcome type that leads to the selecting state; '
-            'roots: 0..5 requested intervals (sizes 1..17; at 0, mid, ending at 2^64-1, inverted, full), scripted reader answer per '
-            'chain from complete / unordered / prefix / suffix / gap / duplicate (extra, replacing) / window shifted up or down / '
+            'roots: the first 10 cases of every run are single intervals of 255, 256, 257, 300, 513 and 1000 sequence numbers (around and above '
+            'the 256 leaves of one merkle tree) read completely, then 0..5 requested intervals (sizes 1..17, 1 in 60 of 255..300; at 0, mid, '
+            'ending at 2^64-1, inverted, full), scripted reader answer per '
+            'chain from complete / honest database reader that holds the interval and its neighbours and answers exactly the range it is asked for / unordered / prefix / suffix / gap / duplicate (extra, replacing) / window shifted up or down / '
             'extra below or above / wrong source chain (one, all) / empty / nil / error / hasher error / one short, '
             'supported-chain set and on-ramp address lookup with failures. '
             'non-trivial = lim: valid range, n>=1, size within one of n or end within 257 of 2^64; rng: >= 1 chain with something '
